@@ -154,6 +154,40 @@ func c16(c *Ctx) {
 		}
 	}
 
+	// every object handed to the establish phase was dry-run first
+	if val != nil {
+		n := 0
+		for _, f := range closures(val) {
+			var updDry, creDry []cfgx.Edge
+			for _, x := range calls(f, est+"update") {
+				updDry = append(updDry, okEdges(x)...)
+			}
+			for _, x := range calls(f, est+"create") {
+				creDry = append(creDry, okEdges(x)...)
+			}
+			_, ctlFalse, _ := boolParamEdges(f)
+			for _, b := range f.Blocks {
+				for _, in := range b.Instrs {
+					st, ok := in.(*ssa.Store)
+					if !ok || !isFieldSel(st.Addr, "revision.currentDesired", "Exists") {
+						continue
+					}
+					n++
+					if v, ok := cfgx.ConstBool(st.Val); ok && v {
+						c.requireCross(load.FuncName(f)+": existing object validated", st, updDry, "ok(e.update(..., DryRunAll))")
+					} else if ok {
+						c.requireCross(load.FuncName(f)+": missing object validated", st, union(creDry, ctlFalse), "ok(e.create(..., DryRunAll)) or control==false")
+					} else {
+						c.R.Unknown(load.FuncName(f)+": Exists literal", c.pos(st.Pos()), "Exists is not a constant")
+					}
+				}
+			}
+		}
+		if n < 2 {
+			c.R.Unknown(load.FuncName(val)+": validated objects", c.pos(val.Pos()), "expected the Exists:true and Exists:false results")
+		}
+	}
+
 	c.R.Rule("R16.2", "only a controller creates: e.create needs control==true and the not-found/!Exists edge; client.Create only inside APIEstablisher.create", 5,
 		"an inactive revision that creates objects races the active revision and becomes controller of objects it must not control")
 	for _, host := range []*ssa.Function{val, estab} {
